@@ -301,6 +301,8 @@ func (x *Exec) coneOfInfluence(pc *Term) *Term {
 	if len(conj) < 8 {
 		return pc
 	}
+	last0 := len(conj) - 1
+	_ = last0
 	if x.symCache == nil {
 		x.symCache = map[int]map[string]bool{}
 	}
@@ -321,9 +323,46 @@ func (x *Exec) coneOfInfluence(pc *Term) *Term {
 		x.symCache[t.ID] = m
 		return m
 	}
+	last := len(conj) - 1
+	// Fast path: the branch condition only mentions input parameters of the lemma. Then the
+	// conjuncts that mention only input parameters are a sufficient (weaker, hence sound)
+	// context: the query stays tiny however long the path is.
+	onlyInputs := func(m map[string]bool) bool {
+		for k := range m {
+			if strings.HasPrefix(k, "in$") || k == "alloc0" {
+				continue
+			}
+			if d := x.C.Funcs[k]; d != nil && d.DefBody != nil && strings.HasPrefix(k, "spec$") {
+				continue // a defined (closed) spec function
+			}
+			return false
+		}
+		return true
+	}
+	if traceForks {
+		cs := syms(conj[last])
+		var names []string
+		for k := range cs {
+			if !strings.HasPrefix(k, "in$") {
+				names = append(names, k)
+			}
+		}
+		if len(names) > 6 {
+			names = names[:6]
+		}
+		fmt.Fprintf(os.Stderr, "PRUNE-SYMS non-input=%v\n", names)
+	}
+	if cs := syms(conj[last]); len(cs) > 0 && onlyInputs(cs) {
+		out := []*Term{}
+		for _, c := range conj {
+			if onlyInputs(syms(c)) {
+				out = append(out, c)
+			}
+		}
+		return x.C.And(out...)
+	}
 	keep := make([]bool, len(conj))
 	front := map[string]bool{}
-	last := len(conj) - 1
 	keep[last] = true
 	for k := range syms(conj[last]) {
 		front[k] = true
